@@ -51,6 +51,7 @@ def _run_task(task):
         inst = {i.name: i for i in contract.instances(tier)}[iname]
         r = harness.verify_instance(contract, inst, seed=seed, tier=tier)
         out = r.__dict__.copy()
+        out.pop("proved_names", None)
         # confirm failures natively and prepare replay payloads
         for f in out["failed"]:
             try:
